@@ -32,6 +32,16 @@ class CHECK(Check):
         if tier == 'thorough':
             self.fams2 = {d: gsx.Families(m, 2) for d, m in self.models.items()}
 
+    GARBAGE = [('ID',), ('ID', 'ID'), ('RPAREN',), ('COMMA',), ('INTEGER',), ('ID', 'SELECT')]
+
+    def tops(self, m):
+        out = []
+        for p in m.prods_of[m.start]:
+            y = m.min_yield_seq(p.prod)
+            if m.simulate(y)[0]:
+                out.append(y)
+        return out
+
     def cases(self):
         out = []
         self.structural = []
@@ -39,44 +49,51 @@ class CHECK(Check):
             f = self.fams[d]
             for s in f.s0_edges():
                 out.append((d, 's0e', s))
-            for s in f.s0_pairs():
+            pairs = f.s0_pairs()
+            for s in pairs:
                 out.append((d, 's0p', s))
             for kind, s in f.s1():
                 out.append((d, kind, s))
-            # statement concatenations
-            tops = []
-            for p in m.prods_of[m.start]:
-                y = m.min_yield_seq(p.prod)
-                if m.simulate(y)[0]:
-                    tops.append(y)
-            garbage = [('ID',), ('ID', 'ID'), ('RPAREN',), ('COMMA',), ('INTEGER',), ('ID', 'SELECT')]
+                if kind != 'trunc':
+                    # the same deviation with every token on a line of its own (recovery that works line-wise)
+                    out.append((d, kind + '/nl', s))
+            # statement concatenations, in several layouts
+            tops = self.tops(m)
             for a, b in itertools.product(tops, tops):
                 out.append((d, 'cat', a + b))
+                out.append((d, 'cat/nl', a + b))
                 out.append((d, 'text', m.text_of(a) + ' ; ' + m.text_of(b)))
+                out.append((d, 'text', m.text_of(a) + ';\n' + m.text_of(b)))
+                out.append((d, 'text', m.text_of(a) + '\n' + m.text_of(b)))
             for a in tops:
-                for gb in garbage:
-                    out.append((d, 'cat', gb + a))
-                    out.append((d, 'cat', a + gb))
-                    out.append((d, 'text', m.text_of(gb) + ' ; ' + m.text_of(a)))
-                    out.append((d, 'text', m.text_of(a) + ' ; ' + m.text_of(gb)))
+                for gb in self.GARBAGE:
+                    for x, y in ((gb, a), (a, gb)):
+                        out.append((d, 'cat', x + y))
+                        out.append((d, 'cat/nl', x + y))
+                        for sep in (' ; ', ';\n', '\n', '\n;\n', ' ;\n\n', ' -- c\n', ' /* c\n */ '):
+                            out.append((d, 'text', m.text_of(x) + sep + m.text_of(y)))
+                        # one line break at every position of the concatenation
+                        z = x + y
+                        for i in range(1, len(z)):
+                            out.append((d, 'text', m.text_of(z[:i]) + '\n' + m.text_of(z[i:])))
+                    for b in tops[:8]:
+                        # garbage line, dropped token, then two statements / statement, garbage, statement
+                        out.append((d, 'text', m.text_of(gb) + '\n' + m.text_of(a) + ';\n' + m.text_of(b)))
+                        out.append((d, 'text', m.text_of(a) + ';\n' + m.text_of(gb) + '\n' + m.text_of(b)))
+                        out.append((d, 'text', m.text_of(a) + '\n' + m.text_of(gb) + ';\n' + m.text_of(b)))
                 for tail in (';', ' ;', ';;', ' ; ; ', '\n;\n', ' ;\t'):
                     out.append((d, 'text', m.text_of(a) + tail))
                 out.append((d, 'text', '; ' + m.text_of(a)))
             if self.tier == 'thorough':
+                for s in f.s0_triples(exclude=pairs):
+                    out.append((d, 's0t', s))
                 f2 = self.fams2[d]
-                for s in f2.s0_edges():
-                    out.append((d, 's0e2', s))
-                for kind, s in f2.s1():
-                    out.append((d, kind + '2', s))
-                # two deviations on k=1 witnesses over column-class representatives
-                reps = column_class_reps(m)
-                for a, (pre, stk) in f.ex['states'].items():
-                    c = f.comp[a] or ()
-                    for t1 in reps:
-                        for t2 in reps:
-                            out.append((d, 'ins2', pre + (t1, t2) + c))
-                            if c:
-                                out.append((d, 'insrep', pre + (t1,) + c[:1] + (t2,) + c[2:]))
+                n2 = len(f2.ex['states'])
+                for lo in range(0, n2, 200):
+                    out.append(('@group', d, 'k2', lo, min(n2, lo + 200)))
+                n1 = len(f.ex['states'])
+                for lo in range(0, n1, 10):
+                    out.append(('@group', d, 'two', lo, min(n1, lo + 10)))
             # structural: no production mentions `error`
             for p in m.prods:
                 if 'error' in p.prod:
@@ -84,6 +101,43 @@ class CHECK(Check):
         if self.structural:
             out.append(('*', 'structural', tuple(self.structural)))
         return out
+
+    def expand(self, group):
+        """lazily generated families of the thorough tier (generated inside the worker)"""
+        _, d, fam, lo, hi = group
+        m = self.models[d]
+        if fam == 'k2':
+            f2 = self.fams2[d]
+            keys = list(f2.ex['states'])[lo:hi]
+            for a in keys:
+                pre, stk = f2.ex['states'][a]
+                for t in m.terminals:
+                    r = m.step(stk, t)
+                    if r is not None and r != 'accept':
+                        c = m.complete(r)
+                        if c is not None:
+                            yield (d, 's0e2', pre + (t,) + c)
+                c = f2.comp[a] or ()
+                for t in m.terminals:
+                    yield (d, 'ins2k', pre + (t,) + c)
+                    if c:
+                        yield (d, 'rep2k', pre + (t,) + c[1:])
+                if c:
+                    yield (d, 'del2k', pre + c[1:])
+                yield (d, 'trunc2k', pre)
+        elif fam == 'two':
+            # two deviations on k=1 witnesses over column-class representatives
+            f = self.fams[d]
+            reps = column_class_reps(m)
+            keys = list(f.ex['states'])[lo:hi]
+            for a in keys:
+                pre, stk = f.ex['states'][a]
+                c = f.comp[a] or ()
+                for t1 in reps:
+                    for t2 in reps:
+                        yield (d, 'ins2', pre + (t1, t2) + c)
+                        if c:
+                            yield (d, 'insrep', pre + (t1,) + c[:1] + (t2,) + c[2:])
 
     def run(self, case):
         res = Result()
@@ -100,6 +154,8 @@ class CHECK(Check):
                 res.count('skipped_no_lexeme')
                 return res
             text = m.text_of(payload)
+            if kind.endswith('/nl'):
+                text = text.replace(' ', '\n')
         try:
             actual = tuple(m.lex_types(parsing.strip_tail(text)))
         except parsing.LexError:
@@ -154,14 +210,15 @@ class CHECK(Check):
         cov.update({'states': st, 'transitions': tr, 'traces_validated_against_impl': agg['n'],
                     'per_dialect': per,
                     'rule': 'cases = S0 edge cover + production-pair cover + S1 (insert/replace with every terminal, delete, truncate at every '
-                            'abstract state) + statement concatenations; distinct_nontrivial = distinct accepted token streams'})
+                            'abstract state, each also with one token per line) + statement concatenations in 9 layouts and with a line break at every position (thorough: + production triples, k=2 states, two deviations); distinct_nontrivial = distinct accepted token streams'})
         return cov
 
     def describe_case(self, case):
         d, kind, payload = case
         if kind == 'text' or kind == 'structural':
             return {'dialect': d, 'kind': kind, 'text': payload}
-        return {'dialect': d, 'kind': kind, 'text': self.models[d].text_of(payload)}
+        text = self.models[d].text_of(payload)
+        return {'dialect': d, 'kind': kind, 'text': text.replace(' ', '\n') if kind.endswith('/nl') else text}
 
 
 def column_class_reps(m):
